@@ -30,6 +30,14 @@ ENGINES = [
 ]
 ENGINES = [e for e in ENGINES if e["serves_properties"]]
 
+COMP_NOTE = ("trusted: libc time functions (shared by oracle and code under test), tmpfs, the reference models; single-threaded by design — the "
+             "simulated elements are the clock history and the directory state across restarts")
+CHECKS.update({
+ "C13": ("SIM-COMP", "seeded search over (pattern, zone, mode) x simulated clock histories with ticks, repeats, forward jumps over every cache boundary and backward steps, 2001-2100; every call compared with gmtime_r/localtime_r + strftime + spliced fraction; invalid patterns must be rejected; sampling, not proof (thinnest fit of the technique: the only simulator element is the clock with its jump faults)", COMP_NOTE, "deterministic simulation of a clock process with jump faults driving the real formatter, libc oracle per call, ddmin-minimised replay"),
+ "C14": ("SIM-COMP", "seeded search over directory histories of the real RotatingFileSink: write sizes around the limit, restarts (destroy + construct over the same directory, append and clean modes), foreign files, x limit / backup count / overwrite / naming scheme / zone; after every op the directory is listed and read back against a file-set reference model (whole statements, size bound, order across files, backup count, nothing clobbered, foreign files untouched); sampling, not proof", COMP_NOTE, "deterministic simulation of disk state across restarts with a reference file-set model, ddmin-minimised replay"),
+ "C15": ("SIM-COMP", "as C14 with daily / hourly / minutely time rotation: start instants anywhere in the period, dense steps, instants exactly on / 1 ns around wall-clock boundaries, gaps of many periods, zones, naming schemes, optional size limit; oracle: which file each statement is in relative to the scheduled points (both documented readings accepted for interval k), file names encode the opening instant; sampling, not proof", COMP_NOTE + "; daily schedules judged on days without a DST change", "deterministic simulation of clock histories and disk state with a schedule reference model, ddmin-minimised replay"),
+})
+
 NA = [
  {"property_id": "C12", "reason": "pure function of (pattern, attribute values, message): no schedule, clock, fault, I/O or shared state for a simulator to control (DESIGN.md section 5)"},
  {"property_id": "C19", "reason": "pure function of (template, arguments) plus a content-keyed memo table; first-seen order cannot change a result (DESIGN.md section 5)"},
